@@ -15,6 +15,8 @@
   * `like` is the backtracking `wildcardMatch` on the element sequence of the pattern;
   * `toDate` / `toTime` use FLOOR semantics, `toDate` fails when the floored instant leaves the
     64-bit range (`floorDate`, `floorTime`);
+  * a record expression is a map: its entries are evaluated in ascending key order (the order of the
+    reference implementation's `BTreeMap`), the first error wins;
   * `a != b`, `a > b`, `a >= b`, `e is T in r` are the parser's desugarings `!(a == b)`, `!(a <= b)`,
     `!(a < b)`, `(e is T) && (e in r)`.
 
@@ -300,7 +302,12 @@ noncomputable def evaluateWith (D : DateFns) : Expr → Env → Res
       let vs ← evaluateList D es env
       .ok (mkSet vs)
   | .record kes, env => do
-      let kvs ← evaluateKVs D kes env
+      -- a record expression is a MAP from attribute names to expressions: its entries are evaluated in
+      -- key order (`canonKVs`: distinct keys ascending; a repeated key, which the Cedar parser rejects
+      -- and cedar-go accepts, keeps its last entry), the first error wins.  Written as "every entry's
+      -- own result, then the first error in key order" so that the recursion is structural
+      -- (`evaluate_recordLit`, Lemmas/C01RefineEval.lean: `evaluateKVs D (canonKVs kes) env`).
+      let kvs ← seqKVs (canonKVs (evaluateEach D kes env))
       .ok (mkRecord kvs)
   | .call fn args, env =>
       -- cedar-go only: a residual error node left by partial evaluation
@@ -324,14 +331,19 @@ noncomputable def evaluateList (D : DateFns) : List Expr → Env → Except Err 
       let v ← evaluateWith D e env
       let vs ← evaluateList D es env
       .ok (v :: vs)
-/-- `axs.mapM (bindAttr a (evaluate x))`: entries in source order, first error wins -/
+/-- every entry of a record expression with its own result -/
+noncomputable def evaluateEach (D : DateFns) : List (String × Expr) → Env → List (String × Res)
+  | [], _ => []
+  | (k, e) :: kes, env => (k, evaluateWith D e env) :: evaluateEach D kes env
+end
+
+/-- `axs.mapM (bindAttr a (evaluate x))`: entries in the given order, first error wins -/
 noncomputable def evaluateKVs (D : DateFns) : List (String × Expr) → Env → Except Err (List (String × Value))
   | [], _ => .ok []
   | (k, e) :: kes, env => do
       let v ← evaluateWith D e env
       let vs ← evaluateKVs D kes env
       .ok ((k, v) :: vs)
-end
 
 /-- **The specification**: Cedar's `evaluate` with the specification's `toDate` / `toTime`. -/
 noncomputable def evaluate (e : Expr) (env : Env) : Res := evaluateWith cedarDates e env
